@@ -59,6 +59,9 @@ Defs == <<
   [name |-> "param-named-inputs",         setup |-> <<EAsg("f", ELam(<<Req("inputs"), Req("x")>>, EList(<<EId("inputs"), X>>)))>>, call |-> "two"],
   [name |-> "param-named-like-itself",    setup |-> <<EAsg("f", ELam(<<Req("f")>>, Plus(F, N(1))))>>, call |-> "one"],
   [name |-> "param-named-like-itself-2",  setup |-> <<EAsg("g", N(10)), EAsg("f", ELam(<<Req("x"), Prm("f", "opt")>>, EList(<<X, F, G>>)))>>, call |-> "two"],
+  \* the function re-entered during its own call, a same-named local of the calling level in between
+  [name |-> "recursive-shadowed-capture", setup |-> <<EAsg("g", N(10)), EAsg("f", ELam(<<Req("x")>>, EIf(EBin("eq", X, N(0)), G, EDo(<<EAsg("g", N(99))>>, ECall(F, <<EBin("sub", X, N(1))>>)))))>>, call |-> "one"],
+  [name |-> "self-passed-shadowed-capture", setup |-> <<EAsg("g", N(10)), EAsg("h", ELam(<<Req("y"), Req("x")>>, EIf(EBin("eq", X, N(0)), G, EDo(<<EAsg("g", N(99))>>, ECall(EId("y"), <<EId("y"), EBin("sub", X, N(1))>>))))), EAsg("f", ELam(<<Req("x")>>, ECall(EId("h"), <<EId("h"), X>>)))>>, call |-> "one"],
   [name |-> "rest-from-spread",      setup |-> <<EAsg("g", EList(<<N(7), N(8)>>)), EAsg("f", ELam(<<Req("x"), Prm("z", "rest")>>, EList(<<X, EId("z"), ECall(EId("len"), <<G>>)>>)))>>, call |-> "spread"]
 >>
 
